@@ -173,31 +173,40 @@ Fixpoint find_owner (fuel : nat) (g : vgraph) (ow : list (vid * (owner * str))) 
   end.
 
 (** * [use_or_own] *)
+(** [self.owners.entry(created).or_insert(o)] *)
+Definition remember_owner (cr : vid) (o : owner * str) (s : cstate) : cstate :=
+  match nassoc cr (cs_owners s) with
+  | Some _ => s
+  | None => mkcs (cs_types s) (cs_cache s) (cs_resmap s) ((cr, o) :: cs_owners s)
+  end.
+
 Definition use_or_own (fuel : nat) (g : vgraph) (ow : owner) (name : str) (referenced created : vid) (s : cstate)
   : cres cstate :=
   match find_owner fuel g (cs_owners s) referenced with
   | None => COutOfFuel
   | Some (Some (other, orig)) =>
-    match other with
-    | OwIface i =>
-      if owner_eqb ow other then COk s
-      else
-        let used : used := (i, if str_eqb name orig then None else Some orig) in
-        match ow with
-        | OwIface me =>
-          match upd_if (cs_types s) me (fun x => mkif (i_id x) (imap_insert name used (i_uses x)) (i_exports x)) with
-          | Some t => COk (with_types s t)
-          | None => CPanic PBadIndex
-          end
-        | OwWorld me =>
-          match upd_world (cs_types s) me
-                  (fun x => mkworld (w_id x) (imap_insert name used (w_uses x)) (w_imports x) (w_exports x)) with
-          | Some t => COk (with_types s t)
-          | None => CPanic PBadIndex
-          end
-        end
-    | OwWorld _ => COk s
-    end
+    s1 <- match other with
+          | OwIface i =>
+            if owner_eqb ow other then COk s
+            else
+              let used : used := (i, if str_eqb name orig then None else Some orig) in
+              match ow with
+              | OwIface me =>
+                match upd_if (cs_types s) me (fun x => mkif (i_id x) (imap_insert name used (i_uses x)) (i_exports x)) with
+                | Some t => COk (with_types s t)
+                | None => CPanic PBadIndex
+                end
+              | OwWorld me =>
+                match upd_world (cs_types s) me
+                        (fun x => mkworld (w_id x) (imap_insert name used (w_uses x)) (w_imports x) (w_exports x)) with
+                | Some t => COk (with_types s t)
+                | None => CPanic PBadIndex
+                end
+              end
+          | OwWorld _ => COk s
+          end ;;
+    (* the created identifier denotes the owner's item as well *)
+    COk (remember_owner created (other, orig) s1)
   | Some None =>
     (* take ownership; [assert!(prev.is_none())] *)
     match nassoc created (cs_owners s) with
